@@ -54,6 +54,15 @@ PROPS = {
         "note": "PARTIAL for JSON: encoding/json is not modelled; the two library laws are explicit hypotheses of c16_json_roundtrip / c16_json_reject (visible in the statements, not axioms) and are tested, not proved. Trusted: Coq kernel, harness.",
         "assumes": ["json_rt_law and json_reject_law of encoding/json (tested every run; a failure is reported with signature json-hypothesis)"],
     },
+    "C17": {
+        "props": "Props/C17.v",
+        "models": ["Model/Bufio.v", "Model/BufioCheck.v"],
+        "harness": "h_bufio",
+        "results": ["R"],
+        "text": "Coq theorems for all four wrapper variants, every buffer size and every sequence of Write/Writev/Flush: bytes on the connection followed by bytes still buffered equal everything written so far in call order (no reordering of buffered and vectored writes), after Flush the peer has exactly the written bytes, unbuffered variants hold nothing back; reading the peer's stream to its end returns exactly the peer's bytes for any fragmentation (any script) and any caller buffer sizes. Correspondence on projected observables only (far-end bytes after each Flush, bytes read to end of stream), so a different but correct buffering strategy stays quiet.",
+        "note": "bufio.Writer / bufio.Reader (min size 16) / net.Buffers.WriteTo are RE-MODELLED (standard library, trusted as modelled; validated by the correspondence). The in-memory connection accepts every write; real TCP partial writes / errors are not modelled (transport/tcp/transport.go only wraps NewTransport).",
+        "assumes": ["the underlying net.Conn writes all bytes or fails (net.Conn contract)"],
+    },
     "C19": {
         "props": "Props/C19.v",
         "models": ["Model/Pool.v", "Model/PoolArithCheck.v"],
